@@ -2,8 +2,8 @@
 
 Invariant at a hook: after EVERY operation of every history the live object is deep-copied (so that observing does not
 disturb the cache state being explored) and every observable of the copy is compared with the same observable of a
-freshly constructed object with the same values, dt and settings. Observation is done twice, in forward and in
-reverse/random order of the observables, because a stale-cache defect can depend on the order of the reads that follow
+freshly constructed object with the same values, dt and settings. Observation is done in forward and in reverse/random order of the observables and, for one representative of every
+cache group, as the FIRST read after the operation on a copy of its own, because a stale-cache defect can depend on the order of the reads that follow
 the mutation. Reads are additionally checked for idempotence and non-interference.
 Workload: BFS over the observational cache states x every mutator/setting (x every second operation), both classes,
 plus long random histories.
@@ -44,6 +44,7 @@ OBS_ACC = OBS_SIG + ['velocity', 'displacement', 'pga', 'pgv', 'pgd', 's_a', 's_
 GROUP_READ = {'fa': 'fa_spectrum', 'smooth': 'smooth_fa_spectrum', 'resp': 's_a', 'vd': 'velocity', 'pga': 'pga', 'pgv': 'pgv',
               'pgd': 'pgd'}
 DT = 0.01
+FIRST_READS = ['pga', 'pgv', 'pgd', 'velocity', 'displacement', 'fa_spectrum', 'fa_freqs', 'smooth_fa_spectrum', 's_a', 's_d', 'time', 'npts']
 
 
 def n_shards(tier):
@@ -201,8 +202,6 @@ def call_analysis(eqsig, obj, fn):
     if fn == 'surface.calc_cum_abs_surface_energy':
         return eqsig.surface.calc_cum_abs_surface_energy(obj, np.array([2.0]) * obj.dt)
     if fn == 'stockwell.get_max_stockwell_freq':
-        if hasattr(obj, 'swtf'):
-            del obj.swtf          # the helper memoises the transform on the object: not one of the observables
         return eqsig.stockwell.get_max_stockwell_freq(obj)
     if fn == 'fns.generate_fa_spectrum':
         return eqsig.generate_fa_spectrum(obj)
@@ -315,7 +314,14 @@ class Hook(object):
         o1 = observe(copy.deepcopy(obj), names)
         order2 = list(reversed(names)) if rng is None else list(rng.permutation(names))
         o2 = observe(copy.deepcopy(obj), order2)
-        bad = sorted(set(diff_obs(o1, of)) | set(diff_obs(o2, of)))
+        # third observation: one representative of every cache group read FIRST after the operation, each on its own deep
+        # copy (a stale cached peak can be hidden by any earlier read that regenerates the series it was computed from)
+        o3 = {}
+        for name in FIRST_READS:
+            if name in of:
+                o3[name] = observe(copy.deepcopy(obj), [name])[name]
+        bad3 = [k for k in o3 if not same(o3[k], of[k])]
+        bad = sorted(set(diff_obs(o1, of)) | set(diff_obs(o2, of)) | set(bad3))
         self.ctx.check(not bad, 'inv.after-op(all observables==fresh twin)',
                        lambda: dict(self.witness(cls_name, base, history), stale=bad),
                        '%s after %s: observables %s differ from a fresh object with the same values/dt/settings'
